@@ -155,7 +155,7 @@ func main() {
 	r.Coverage["decoding_layer_types"] = len(dls)
 	r.Coverage["first_layers"] = len(sp.Firsts)
 	r.Coverage["per_type_seeds"] = len(sp.TSeeds)
-	r.Assumptions = []string{"Go runtime panics/fatal errors are the only crash channel", "inputs outside the enumerated neighbourhoods are not covered (DESIGN.md section 9)", "hang = no progress of one case for 120 s in a worker (orders of magnitude above the normal case time of ~15 us)"}
+	r.Assumptions = []string{"Go runtime panics/fatal errors are the only crash channel", "inputs outside the enumerated neighbourhoods are not covered (DESIGN.md section 9)", "hang = one case consumes 120 s of CPU time in its worker (orders of magnitude above the normal ~15 us), or 30 min of wall-clock time without using CPU"}
 	enum.Main(r, phases)
 	r.Finish()
 }
